@@ -2,7 +2,11 @@
 //!
 //! The real `MojangAdapter` (with the `verif-hooks` origin override) sends its has-joined request
 //! to a plain-HTTP mock on loopback that records the raw request line.
-use common::refs::sha::{minecraft_hex, sha1};
+use crate::net::*;
+use common::refs::codec::Pkt;
+use common::refs::sha::{hmac_sha256, minecraft_hex, sha1};
+use passage_adapters::FixedLocalizationAdapter;
+use passage_protocol::listener::Listener;
 use common::{Cli, Report, Violation};
 use passage_adapters::authentication::AuthenticationAdapter;
 use passage_adapters_http::MojangAdapter;
@@ -18,6 +22,7 @@ async fn mock_server(log: Arc<Mutex<Vec<String>>>) -> std::net::SocketAddr {
     tokio::spawn(async move {
         loop {
             let Ok((mut sock, _)) = listener.accept().await else { break };
+            let _ = sock.set_nodelay(true);
             let log = log.clone();
             tokio::spawn(async move {
                 let mut buf: Vec<u8> = vec![];
@@ -137,6 +142,85 @@ fn class_of(name: &str) -> &'static str {
     }
 }
 
+fn e2e_cookie(age: i64, secret: &[u8], client_ip: &str, name: &str) -> Vec<u8> {
+    let now = std::time::SystemTime::now().duration_since(std::time::UNIX_EPOCH).unwrap().as_secs() as i64;
+    let body = serde_json::to_vec(&json!({
+        "timestamp": (now - age).max(0), "client_addr": format!("{client_ip}:1"), "user_name": name,
+        "user_id": "09879557-e479-45a9-b434-a56377674627", "target": "t", "profile_properties": [], "extra": {},
+    }))
+    .unwrap();
+    let mut out = hmac_sha256(secret, &body).to_vec();
+    out.extend_from_slice(&body);
+    out
+}
+
+/// The request made *for a connection*: the real Listener and Connection with the real MojangAdapter
+/// as authentication service; a client logs in over TCP and the mock records what was asked.
+fn end_to_end(rep: &Report, requests: &AtomicU64) {
+    run_local(async {
+        let log = Arc::new(Mutex::new(vec![]));
+        let mock = mock_server(log.clone()).await;
+        unsafe { std::env::set_var("PASSAGE_VERIF_SESSION_URL", format!("http://{mock}")) };
+        let a = Arc::new(NetAdapters::new());
+        let port = free_port();
+        let addr: std::net::SocketAddr = format!("127.0.0.1:{port}").parse().unwrap();
+        let stop = tokio_util::sync::CancellationToken::new();
+        let mut listener = Listener::new(a.clone(), a.clone(), a.clone(), a.clone(), Arc::new(MojangAdapter::default()), Arc::new(FixedLocalizationAdapter::default()))
+            .with_auth_secret(Some(b"c12-cookie-secret".to_vec()));
+        let stop2 = stop.clone();
+        let done = tokio::task::spawn_local(async move { listener.listen(addr, stop2).await.map_err(|e| e.to_string()) });
+        for _ in 0..400 {
+            if tokio::net::TcpStream::connect(addr).await.is_ok() {
+                break;
+            }
+            tokio::time::sleep(std::time::Duration::from_millis(5)).await;
+        }
+        // (intent, claimed name, cookie, a request is expected)
+        let cases: Vec<(&str, i32, &str, Option<Vec<u8>>, bool)> = vec![
+            ("login", 2, "Claimed_A", None, true),
+            ("login-special-name", 2, "a&serverId=0 b#c", None, true),
+            ("login-unicode-name", 2, "Zoë😀", None, true),
+            ("transfer-no-cookie", 3, "Claimed_A", None, true),
+            ("transfer-expired-cookie-of-another-name", 3, "Claimed_A", Some(e2e_cookie(30_000, b"c12-cookie-secret", "127.0.0.1", "Cookie_B")), true),
+            ("transfer-cookie-for-another-ip", 3, "Claimed_A", Some(e2e_cookie(5, b"c12-cookie-secret", "10.9.9.9", "Cookie_B")), true),
+            ("transfer-cookie-under-another-secret", 3, "Claimed_A", Some(e2e_cookie(5, b"some-other-secret", "127.0.0.1", "Cookie_B")), true),
+            ("transfer-valid-cookie", 3, "Claimed_A", Some(e2e_cookie(5, b"c12-cookie-secret", "127.0.0.1", "Cookie_B")), false),
+        ];
+        for (label, intent, name, cookie, expect_request) in cases {
+            log.lock().unwrap().clear();
+            let Ok(mut c) = McClient::connect(addr, None).await else {
+                rep.violation(Violation { key: "e2e-connect-failed".into(), text: label.into(), replay: json!({"e2e": label}), weight: 0 });
+                continue;
+            };
+            let p = LoginParams { intent, name: name.into(), auth_cookie: cookie, wait: std::time::Duration::from_secs(3), ..Default::default() };
+            let mut out = LoginOutcome { packets: vec![], stage: Stage::Connected, error: None };
+            c.login(&p, Stage::Connected, Stage::LoginSuccessReceived, &mut out).await;
+            let key = out.packets.iter().find_map(|p| if let Pkt::EncryptionRequest { public_key, .. } = p { Some(public_key.clone()) } else { None }).unwrap_or_default();
+            let mut all = SECRET16.to_vec();
+            all.extend_from_slice(&key);
+            let hash = minecraft_hex(&sha1(&all));
+            let seen: Vec<String> = log.lock().unwrap().clone();
+            let replay = json!({"e2e": label, "name": name});
+            match (expect_request, seen.as_slice()) {
+                (false, []) => {}
+                (false, many) => rep.violation(Violation { key: format!("e2e-request-although-cookie-vouches:{label}"), text: format!("{many:?}"), replay, weight: 1 }),
+                (true, [line]) => {
+                    requests.fetch_add(1, Ordering::Relaxed);
+                    if let Some((k, t)) = judge_request(line, name, &hash) {
+                        rep.violation(Violation { key: format!("e2e-{k}:{label}"), text: format!("connection claiming {name:?} ({label}): {t}; request line {line:?}"), replay, weight: 1 });
+                    }
+                    if out.stage != Stage::LoginSuccessReceived {
+                        rep.violation(Violation { key: format!("e2e-login-failed:{label}"), text: format!("{:?} {:?}", out.stage, out.error), replay: json!({"e2e": label}), weight: 1 });
+                    }
+                }
+                (true, other) => rep.violation(Violation { key: format!("e2e-request-count:{label}"), text: format!("{} has-joined requests for one connection: {other:?} (login {:?} {:?})", other.len(), out.stage, out.error), replay, weight: 1 }),
+            }
+        }
+        stop.cancel();
+        let _ = tokio::time::timeout(std::time::Duration::from_secs(2), done).await;
+    });
+}
+
 pub fn run(cli: Cli) -> ! {
     let rep = Report::new("C12", cli.tier, "exploration");
     let thorough = cli.tier.thorough();
@@ -212,6 +296,9 @@ pub fn run(cli: Cli) -> ! {
             }
         }
     });
+    if cli.replay.is_none() || cli.replay.as_ref().is_some_and(|c| c.get("e2e").is_some()) {
+        end_to_end(&rep, &requests);
+    }
     let n = requests.load(Ordering::Relaxed);
     rep.require("requests captured by the mock session server", n, if cli.replay.is_some() { 1 } else { 50 });
     rep.set("evaluations", json!(names.len() * 2));
@@ -219,7 +306,7 @@ pub fn run(cli: Cli) -> ! {
     rep.set("requests_captured", json!(n));
     rep.set("names_refused_by_the_client_library", json!(errors.load(Ordering::Relaxed)));
     rep.set("exhaustive", json!(true));
-    rep.set("rule", json!("every name X, aXb for X in a 24-symbol alphabet (a & = # ? % + space / \\ . : @ ; \" < CR LF TAB NUL é 😀 %26 ../), 15 targeted payloads, and in thorough every XY and pXYq; x server id {\"\", \"srv\"}, two secrets; the raw request line recorded by the mock is parsed independently. Non-trivial = the name contains a character outside [A-Za-z0-9_]."));
+    rep.set("rule", json!("every name X, aXb for X in a 24-symbol alphabet (a & = # ? % + space / \\ . : @ ; \" < CR LF TAB NUL é 😀 %26 ../), 15 targeted payloads, and in thorough every XY and pXYq; x server id {\"\", \"srv\"}, two secrets; the raw request line recorded by the mock is parsed independently. Plus 8 whole connections (real Listener + Connection + MojangAdapter over TCP: login and transfer intents, names with special characters, stale / foreign / forged / valid cookies of another name) whose request must ask about the claimed name and that connection's hash. Non-trivial = the name contains a character outside [A-Za-z0-9_]."));
     rep.sample(json!({"name": "Victim&serverId=0", "server_id": "srv", "expect": "one username parameter decoding to the whole name, one serverId equal to the hash"}));
     rep.sample(json!({"name": "a#", "expect": "username decodes to 'a#'; no raw # in the request target"}));
     rep.sample(json!({"name": names[names.len() / 2]}));
